@@ -3,16 +3,28 @@
 #ifndef VERIF_GHOST_WRITER_H
 #define VERIF_GHOST_WRITER_H
 #include <stddef.h>
-/* C01 conservation: address of the next source byte the codec's compress hook must be handed.  The
- * compress stand-in requires src == g_next (when g_track is on) and advances it by the size it was
- * given: "every byte handed on exactly once, in order". */
-extern const char *g_next;
+/* C01 conservation: position of the next source byte the codec's compress hook must be handed, as an
+ * INTEGER offset into the caller's source object g_src_base (set by the harness, in no frame).  The
+ * compress stand-in requires G_NEXT_IS(src) (when g_track is on) and advances the offset by the size it
+ * was given: "every byte handed on exactly once, in order".
+ * Integers, not pointers: in CBMC 6.11 an ASSUMED equation between a pointer-typed location havocked by
+ * a contract/loop frame and `p + k` (k != 0) inside a loop under --apply-loop-contracts is unsatisfiable
+ * (micro-experiment in agent-notes/writer.md) -- the first version of these ghosts (const char *g_next,
+ * *g_bz_last) silently cut off every path that consumed a byte in the automatic loop of zck_write. */
+extern const char *g_src_base;
+extern size_t g_next_off;
+#define G_OFF(p) ((size_t)__CPROVER_POINTER_OFFSET(p))
+#define G_OBJ(p) ((size_t)__CPROVER_POINTER_OBJECT(p))
+#define G_NEXT_IS(p) (__CPROVER_same_object((p), g_src_base) && G_OFF(p) == g_next_off)
 extern int g_track;           /* 1: the stream handed to compress is the caller's data (comp_write); 0: dictionary (comp_init) */
-/* C01 termination of the automatic loop: g_bz_last = address of the byte most recently fed to
- * buzhash_update, g_same = number of consecutive updates fed from that same address since the window
- * was last (re)allocated.  Maintained by the buzhash_update / buzhash_reset contracts. */
-extern const char *g_bz_last;
+/* C01 termination of the automatic loop: (g_bz_have, g_bz_last_obj, g_bz_last_off) = address (object
+ * number, offset; integers) of the byte most recently fed to buzhash_update, g_same = number of
+ * consecutive updates fed from that same address since the window was last (re)allocated.  Maintained
+ * by the buzhash_update / buzhash_reset contracts. */
+extern int g_bz_have; extern size_t g_bz_last_obj, g_bz_last_off;
 extern unsigned g_same;
+#define G_BZ_LAST_IS(p) (g_bz_have != 0 && g_bz_last_obj == G_OBJ(p) && g_bz_last_off == G_OFF(p))
+#define G_BZ_LAST_WAS(p) (V_OLD(g_bz_have) != 0 && V_OLD(g_bz_last_obj) == G_OBJ(p) && V_OLD(g_bz_last_off) == G_OFF(p))
 /* C16: call-site obligations of zck_end_chunk inside zck_write's loops are switched on by the
  * zck_write harness (zck_end_chunk is also an API entry point that may be called at any time) */
 extern int g_from_write;
@@ -24,7 +36,7 @@ extern int g_z_last_dict_state;   /* g_z_dict_loaded at the most recent ZSTD_com
 extern int g_z_last_pinned;       /* g_z_strategy_pinned at the most recent ZSTD_compress2 */
 extern const void *g_z_last_src; extern size_t g_z_last_src_size;
 #define GHOST_WRITER_DEFS \
-  const char *g_next; int g_track; const char *g_bz_last; unsigned g_same; int g_from_write; \
+  const char *g_src_base; size_t g_next_off; int g_track; int g_bz_have; size_t g_bz_last_obj, g_bz_last_off; unsigned g_same; int g_from_write; \
   int g_z_strategy_pinned, g_z_dict_loaded; unsigned g_z_compress_calls; int g_z_last_dict_state, g_z_last_pinned; \
   const void *g_z_last_src; size_t g_z_last_src_size;
 #endif
